@@ -107,8 +107,11 @@ def pair(pre, x, post, w, d: Path, uid):
     elif w == "div":
         wx = [":" * cl] + lx + [":" * cl]
     elif w == "include":
-        (d / f"inc{uid}.md").write_text("\n".join(lx) + "\n")
-        wx = [f"```{{include}} inc{uid}.md", "```"]
+        # (the same few file names are used again and again within a worker process, with new contents each time:
+        # what is included is the file as it is now)
+        fn = f"inc{uid % 3}.md"
+        (d / fn).write_text("\n".join(lx) + "\n")
+        wx = [f"```{{include}} {fn}", "```"]
     else:
         ov = {"myst_substitutions": {"subx": "\n".join(lx)}}
         wx = ["{{ subx }}"]
